@@ -3,7 +3,7 @@ import os
 
 PARTS = [
     # (go package, test regexp, overlay mapping, p2p stub needed, case file)
-    ("./pkg/db", "^TestVerifDb$", {"node/pkg/db/zz_verif_db_test.go": "db/db_verif_test.go"}, False, "db.cases"),
+    ("./pkg/db", "^TestVerifDb$", {"node/pkg/db/zz_verif_db_test.go": "db/db_verif_test.go", "node/pkg/db/zz_verif_export.go": "db/verif_export.go"}, False, "db.cases"),
     ("./pkg/publicrpc", "^TestVerifDbRpc$", {"node/pkg/publicrpc/zz_verif_publicrpc_test.go": "publicrpc/publicrpc_verif_test.go"}, False, "dbrpc.cases"),
     ("./cmd/guardiand", "^TestVerifDbAdmin$", {"node/cmd/guardiand/zz_verif_c12_fmm_test.go": "guardiand/c12_fmm_verif_test.go"}, True, "dbadm.cases"),
 ]
